@@ -14,7 +14,7 @@ from facts import AnalysisBroken
 from prog import walk, kids, short, access_kind
 from rules import flow
 from rules.common import counting_for, for_init_const
-from rules.effects import single_def
+from rules.effects import single_def, canon
 from rules.common import (thread_entries, uci_handlers, const_of, strip_casts, strip_conv,
                           expr_key, base_locals, string_literal_sites, in_loop,
                           enclosing_full_stmt, guard_facts, local_writes, written_value)
@@ -290,6 +290,9 @@ def check(ctx):
                 child = any(f.cfg.node_dominates(m_, n) for m_ in made)
                 (rec if child else same).add(nc.s(kids(n)[-1]))
         n_cf += 1
+        if not rec:
+            raise AnalysisBroken('C05: %s splices a child PV but makes no recursive search call behind a made move in its own body '
+                                 '(through a helper or a lambda?)' % short(f.name))
         ctx.ob('C05.R4.pv-child-frame', short(f.name),
                dest == pinfo[0]['name'] and sorted(rec) == [src] and src != dest and same <= {dest},
                'the PV spliced behind a move is read from the frame every child search was given (child calls: %s, same-node calls: %s, '
@@ -624,7 +627,8 @@ def _from_node_list(p, f, arg, call):
         return True, '*it'
     if r.get('k') == 'Parm':
         return True, 'param'  # helper-to-helper forwarding (checked at the outer call site)
-    return False, arg['k']
+    raise AnalysisBroken('C05: the move written into the PV at %s comes from `%s`, a form the rule cannot trace to the node\'s move list'
+                         % (f.loc(call), canon(f, arg, inline=False)[:80]))
 
 
 def _index_in_list(f, sub, base):
